@@ -451,4 +451,6 @@ for p in ("cryptography", "PyNaCl", "argon2-cffi", "passlib", "txaio"):
     except Exception:
         libs[p] = None
 libs["independent_argon2id"] = HAVE_INDEP_ARGON
+import autobahn
+libs["autobahn_path"] = os.path.dirname(autobahn.__file__)
 json.dump({"results": results, "libs": libs, "fw": FW}, sys.stdout)
